@@ -147,7 +147,7 @@ Proof.
     cbn [autoDetectPacketSize_loop1 find_sync].
   - reflexivity.
   - change syncByte with C_syncByte. rewrite Z.geb_leb.
-    destruct ((x =? C_syncByte) && (C_MpegTsPacketSize <=? idx)); [reflexivity|]. apply IH.
+    destruct (x =? C_syncByte); destruct (C_MpegTsPacketSize <=? idx); cbn [andb]; try reflexivity; apply IH.
 Qed.
 
 Definition loop2_is_find_sync_subject (lst : list Z) (idx : Z) (b : list Z) (br : option unit) (ok : bool) (ps0 : Z) (kd : rkind)
@@ -175,7 +175,7 @@ Proof.
     cbn [autoDetectPacketSize_loop2 find_sync].
   - reflexivity.
   - change syncByte with C_syncByte. rewrite Z.geb_leb.
-    destruct ((x =? C_syncByte) && (C_MpegTsPacketSize <=? idx)) eqn:E; [|apply IH].
+    destruct (x =? C_syncByte); destruct (C_MpegTsPacketSize <=? idx) eqn:E; cbn [andb]; try apply IH.
     assert (Hidx : C_MpegTsPacketSize <= idx) by lia. unfold C_MpegTsPacketSize in Hidx.
     cbn [negb]. unfold DemuxGen.rewind, resync, mw.
     destruct kd; cbn [as_seeker_m is_some obind seek_m Z.eqb andb mw_set_reader mw_reader mw_pm mw_groups mw_consulted].
